@@ -28,8 +28,13 @@ class C04(ProgProp):
         import json
         import zlib
         # batching must be the same with profiling on
-        if zlib.crc32(json.dumps(spec["templates"], sort_keys=True).encode()) % 4 == 0:
+        dg = zlib.crc32(json.dumps(spec["templates"], sort_keys=True).encode())
+        if dg % 4 == 0:
             spec["options"] = {"COLLECT_PERF_STATS": True}
+        if (dg // 4) % 4 == 0 and not spec.get("item_eq") and not spec.get("tree_only") \
+                and '"na"' not in json.dumps(spec["templates"]):  # (NonAsyncContext prediction needs the pass/flush model)
+            # some requests are local cache hits: answered when made, their batch still pending
+            spec["cache_hits"] = True
 
 
 PROP = C04()
